@@ -1019,6 +1019,19 @@ impl XmlCData {
         Ok(())
     }
 
+    /// Replaces `count` characters at `offset`; only the final data is validated.
+    pub fn replace(&mut self, offset: usize, count: usize, new: &str) -> error::Result<()> {
+        fn check(value: &str) -> error::Result<bool> {
+            let new = format!("<![CDATA[{}]]>", value);
+            let (rest, _) = xml_parser::cdsect(new.as_str())?;
+            Ok(rest.is_empty())
+        }
+
+        let removed = delete_char_range(self.data.as_str(), offset, count);
+        self.data = insert_char_at(removed.as_str(), offset, new, check)?;
+        Ok(())
+    }
+
     pub fn is_empty(&self) -> bool {
         self.data.is_empty()
     }
@@ -1258,6 +1271,19 @@ impl XmlComment {
         }
 
         self.comment = insert_char_at(self.comment.as_str(), offset, comment, check)?;
+        Ok(())
+    }
+
+    /// Replaces `count` characters at `offset`; only the final data is validated.
+    pub fn replace(&mut self, offset: usize, count: usize, new: &str) -> error::Result<()> {
+        fn check(value: &str) -> error::Result<bool> {
+            let new = format!("<!--{}-->", value);
+            let (rest, _) = xml_parser::comment(new.as_str())?;
+            Ok(rest.is_empty())
+        }
+
+        let removed = delete_char_range(self.comment.as_str(), offset, count);
+        self.comment = insert_char_at(removed.as_str(), offset, new, check)?;
         Ok(())
     }
 
@@ -3631,6 +3657,18 @@ impl XmlText {
         }
 
         self.text = insert_char_at(self.text.as_str(), offset, text, check)?;
+        Ok(())
+    }
+
+    /// Replaces `count` characters at `offset`; only the final data is validated.
+    pub fn replace(&mut self, offset: usize, count: usize, new: &str) -> error::Result<()> {
+        fn check(value: &str) -> error::Result<bool> {
+            let (rest, content) = xml_parser::content(value)?;
+            Ok(rest.is_empty() && content.children.is_empty())
+        }
+
+        let removed = delete_char_range(self.text.as_str(), offset, count);
+        self.text = insert_char_at(removed.as_str(), offset, new, check)?;
         Ok(())
     }
 
